@@ -6,7 +6,7 @@ Local Open Scope Z_scope.
 
 (* ---- the full refinement statement and its refutations ------------------- *)
 
-Definition impl_refines_spec_on (gx : bool) (p : program) : Prop :=
+Definition impl_refines_spec_on (gx : variant) (p : program) : Prop :=
   forall fuel r, obs (spec_run fuel p) = Some r -> exists fuel', obs (impl_run gx fuel' p) = Some r.
 
 (* witness 1: a deferred call replaces the panic, the replacement is recovered,
@@ -28,17 +28,17 @@ Lemma fuel_mono_placeholder : True. Proof. exact I. Qed.
 
 Lemma wit_replaced_runs :
   obs (spec_run 100 wit_replaced) = Some ([ERec (Some (PInt 2)); ETraceX 0 0], FNormal) /\
-  obs (impl_run false 100 wit_replaced) = Some ([ERec (Some (PInt 2))], FFatal (PInt 1)).
+  obs (impl_run V_OLD 100 wit_replaced) = Some ([ERec (Some (PInt 2))], FFatal (PInt 1)).
 Proof. split; vm_compute; reflexivity. Qed.
 
 Lemma wit_goexit_runs :
   obs (spec_run 100 wit_goexit) = Some ([ETrace 1], FNormal) /\
-  obs (impl_run false 100 wit_goexit) = Some ([ETrace 1; ETrace 9; ETraceX 0 0], FNormal).
+  obs (impl_run V_OLD 100 wit_goexit) = Some ([ETrace 1; ETrace 9; ETraceX 0 0], FNormal).
 Proof. split; vm_compute; reflexivity. Qed.
 
 Lemma wit_skipped_runs :
   obs (spec_run 100 wit_skipped) = Some ([ERec (Some (PInt 2)); ERec None; ETrace 0; ETraceX 0 0], FNormal) /\
-  obs (impl_run false 100 wit_skipped) = Some ([ERec (Some (PInt 2)); ERec (Some (PInt 1)); ETraceX 0 0], FNormal).
+  obs (impl_run V_OLD 100 wit_skipped) = Some ([ERec (Some (PInt 2)); ERec (Some (PInt 1)); ETraceX 0 0], FNormal).
 Proof. split; vm_compute; reflexivity. Qed.
 
 (* ---- deferred calls run in LIFO order, each at most once (ImplPanic, all programs) ---- *)
@@ -280,6 +280,32 @@ Definition enum3 : list program :=
 Definition enum4 : list program :=
   flat_map (fun a => map (fun b => [a; b]) (bodies_upto 2 alphabet3c))
            (bodies_upto 3 [STrace 1; SRecover; SCall 1%nat; SDeferClo [SRecover]; SSetR 1]).
+(* E5: Goexit across frames, in deferred calls, with deferred calls that themselves call
+   functions with defers while the goroutine is exiting *)
+Definition enum5 : list program :=
+  flat_map (fun a => map (fun b => [a; b])
+                         (bodies_upto 2 [STrace 2; SDeferClo [STrace 3]; SDeferClo [SRecover]; SGoexit; SSetR 2;
+                                         SDeferClo [SCallClo [SDeferClo [STrace 6]]; STrace 7]]))
+           (bodies_upto 3 [STrace 1; SRecover; SCall 1%nat; SDeferClo [SRecover]; SDeferClo [STrace 4]; SGoexit;
+                           SDeferClo [SCall 1%nat; STrace 5]; SDeferClo [SGoexit]]).
+(* E6: panics raised INSIDE deferred calls (replaced panics, re-panic after recover, panic in a
+   helper of a deferred call, nested deferred recover): one function, <= 4 statements over 16 shapes *)
+Definition alphabet6 : list stmt :=
+  leaves ++ [SCallClo [SRecover]; SCallClo [SPanic (PInt 2)]; SDeferClo [SRecover]; SDeferClo [SPanic (PInt 2)];
+             SDeferClo [SRecover; SPanic (PInt 3)]; SDeferClo [SPanic (PInt 2); SRecover];
+             SDeferClo [SDeferClo [SRecover]; SPanic (PInt 2)]; SDeferClo [SCallClo [SPanic (PInt 2)]];
+             SDeferClo [SCallClo [SDeferClo [SRecover]; SPanic (PInt 4)]; SRecover];
+             SDeferClo [SRecover; SSetR 2]; SDeferClo [STrace 2]].
+Definition enum6 : list program := map (fun b => [b]) (bodies_upto 4 alphabet6).
+(* E7: two functions; f0 calls / defers f1, both may panic, also inside deferred closures *)
+Definition enum7 : list program :=
+  flat_map (fun a => map (fun b => [a; b]) (bodies_upto 2 (alphabet3c ++ [SDeferClo [SPanic (PInt 5)]])))
+           (bodies_upto 3 [STrace 1; SRecover; SCall 1%nat; SDefer 1%nat; SDeferClo [SRecover]; SPanic (PInt 1);
+                           SDeferClo [SPanic (PInt 3)]; SDeferClo [SCall 1%nat; SRecover]]).
+(* E8: Goexit together with panics in deferred calls *)
+Definition enum8 : list program :=
+  map (fun b => [b]) (bodies_upto 4 [STrace 1; SRecover; SDeferClo [SRecover]; SDeferClo [SPanic (PInt 2)]; SGoexit;
+                                     SPanic (PInt 1); SDeferClo [SGoexit]; SDeferClo [SRecover; SGoexit]]).
 
 Definition ENUM_FUEL : nat := 300.
 
@@ -287,15 +313,13 @@ Definition ENUM_FUEL : nat := 300.
 Definition all_run (s : jstate) : bool :=
   forallb (fun id => match pend id (j_trace s) with Some [] => true | _ => false end) (seq 0 (j_next s)).
 
-Definition prog_ok_f (gx : bool) (fuel : nat) (p : program) : bool :=
+Definition prog_ok_f (gx : variant) (fuel : nat) (p : program) : bool :=
   match impl_fun gx fuel p 0 0 wrapper j_init, spec_run fuel p with
   | Some (out, s), Some r =>
       all_run s &&
-      (if result_eq_dec (obs (Some (rev (j_trace s), impl_final out s))) (obs (Some r)) then true else false)
+      (if result_eq_dec (obs (Some (rev (j_trace s), impl_final gx out s))) (obs (Some r)) then true else false)
   | _, _ => false
   end.
-Notation prog_ok := (prog_ok_f false ENUM_FUEL) (only parsing).
-Notation prog_ok_fixed := (prog_ok_f true ENUM_FUEL) (only parsing).
 
 (* what the boolean check establishes — stated for an abstract amount of fuel *)
 Lemma prog_ok_refines : forall gx fuel p, prog_ok_f gx fuel p = true ->
@@ -305,7 +329,7 @@ Proof.
   destruct (impl_fun gx fuel p 0 0 wrapper j_init) as [[o s]|]; [|discriminate].
   destruct (spec_run fuel p) as [[t f]|] eqn:S; [|discriminate].
   apply andb_prop in K. destruct K as [_ K2].
-  destruct (result_eq_dec (obs (Some (rev (j_trace s), impl_final o s))) (obs (Some (t, f)))) as [E|]; [|discriminate].
+  destruct (result_eq_dec (obs (Some (rev (j_trace s), impl_final gx o s))) (obs (Some (t, f)))) as [E|]; [|discriminate].
   exists (filter observable t, f). split; [reflexivity|]. rewrite E. reflexivity.
 Qed.
 
@@ -324,61 +348,78 @@ Proof.
   destruct (pend id (j_trace s)) as [[|]|]; try discriminate. reflexivity.
 Qed.
 
-Lemma enum1_ok : forallb prog_ok enum1 = true. Proof. vm_compute. reflexivity. Qed.
-Lemma enum2_ok : forallb prog_ok enum2 = true. Proof. vm_compute. reflexivity. Qed.
-Lemma enum3_ok : forallb prog_ok enum3 = true. Proof. vm_compute. reflexivity. Qed.
-Lemma enum4_ok : forallb prog_ok enum4 = true. Proof. vm_compute. reflexivity. Qed.
+(* tree with the Goexit repair only (V_GOEXIT): calm programs and Goexit programs *)
+Definition enum_calm : list program := enum1 ++ enum2 ++ enum3 ++ enum4 ++ enum5.
+(* tree with both repairs (V_REPAIRED): additionally panics inside deferred calls *)
+Definition enum_all : list program := enum_calm ++ enum6 ++ enum7.
+(* with the $goroutine catch clause repaired too (V_FULL): additionally Goexit together with panics *)
+Definition enum_full : list program := enum_all ++ enum8.
+
+Lemma enum_calm_ok : forallb (prog_ok_f V_GOEXIT ENUM_FUEL) enum_calm = true. Proof. vm_compute. reflexivity. Qed.
+Lemma enum_all_ok : forallb (prog_ok_f V_REPAIRED ENUM_FUEL) enum_all = true. Proof. vm_compute. reflexivity. Qed.
+Lemma enum_full_ok : forallb (prog_ok_f V_FULL ENUM_FUEL) enum_full = true. Proof. vm_compute. reflexivity. Qed.
 
 Opaque ENUM_FUEL.
 
-Definition enumerated (p : program) : Prop := In p enum1 \/ In p enum2 \/ In p enum3 \/ In p enum4.
-
-Lemma prog_ok_all : forall p, enumerated p -> prog_ok p = true.
+Lemma refines_calm : forall p, In p enum_calm ->
+  exists r, obs (spec_run ENUM_FUEL p) = Some r /\ obs (impl_run V_GOEXIT ENUM_FUEL p) = Some r.
 Proof.
-  intros p [H|[H|[H|H]]].
-  - exact (proj1 (forallb_forall prog_ok enum1) enum1_ok p H).
-  - exact (proj1 (forallb_forall prog_ok enum2) enum2_ok p H).
-  - exact (proj1 (forallb_forall prog_ok enum3) enum3_ok p H).
-  - exact (proj1 (forallb_forall prog_ok enum4) enum4_ok p H).
+  intros p H. exact (prog_ok_refines V_GOEXIT ENUM_FUEL p (proj1 (forallb_forall (prog_ok_f V_GOEXIT ENUM_FUEL) enum_calm) enum_calm_ok p H)).
 Qed.
-
-Lemma impl_refines_spec_bounded : forall p, enumerated p ->
-  exists r, obs (spec_run ENUM_FUEL p) = Some r /\ obs (impl_run false ENUM_FUEL p) = Some r.
-Proof. intros p H. exact (prog_ok_refines false ENUM_FUEL p (prog_ok_all p H)). Qed.
-
-Lemma defer_lifo_once_bounded : forall p, enumerated p ->
-  exists out s, impl_fun false ENUM_FUEL p 0 0 wrapper j_init = Some (out, s) /\
+Lemma lifo_once_calm : forall p, In p enum_calm ->
+  exists out s, impl_fun V_GOEXIT ENUM_FUEL p 0 0 wrapper j_init = Some (out, s) /\
     forall id, (id < j_next s)%nat -> pend id (j_trace s) = Some [].
-Proof. intros p H. exact (prog_ok_all_run false ENUM_FUEL p (prog_ok_all p H)). Qed.
-
-(* ---- the repaired variant (goexit_rethrow = true) --------------------------- *)
-(* E5: Goexit across frames, in deferred calls, with deferred calls that themselves call
-   functions with defers while the goroutine is exiting *)
-Definition enum5 : list program :=
-  flat_map (fun a => map (fun b => [a; b])
-                         (bodies_upto 2 [STrace 2; SDeferClo [STrace 3]; SDeferClo [SRecover]; SGoexit; SSetR 2;
-                                         SDeferClo [SCallClo [SDeferClo [STrace 6]]; STrace 7]]))
-           (bodies_upto 3 [STrace 1; SRecover; SCall 1%nat; SDeferClo [SRecover]; SDeferClo [STrace 4]; SGoexit;
-                           SDeferClo [SCall 1%nat; STrace 5]; SDeferClo [SGoexit]]).
-Lemma enum5_ok_fixed : forallb prog_ok_fixed enum5 = true. Proof. vm_compute. reflexivity. Qed.
-Lemma goexit_repaired_bounded : forall p, In p enum5 ->
-  exists r, obs (spec_run ENUM_FUEL p) = Some r /\ obs (impl_run true ENUM_FUEL p) = Some r.
 Proof.
-  intros p H. exact (prog_ok_refines true ENUM_FUEL p (proj1 (forallb_forall (prog_ok_f true ENUM_FUEL) enum5) enum5_ok_fixed p H)).
+  intros p H. exact (prog_ok_all_run V_GOEXIT ENUM_FUEL p (proj1 (forallb_forall (prog_ok_f V_GOEXIT ENUM_FUEL) enum_calm) enum_calm_ok p H)).
+Qed.
+Lemma refines_all : forall p, In p enum_all ->
+  exists r, obs (spec_run ENUM_FUEL p) = Some r /\ obs (impl_run V_REPAIRED ENUM_FUEL p) = Some r.
+Proof.
+  intros p H. exact (prog_ok_refines V_REPAIRED ENUM_FUEL p (proj1 (forallb_forall (prog_ok_f V_REPAIRED ENUM_FUEL) enum_all) enum_all_ok p H)).
+Qed.
+Lemma lifo_once_all : forall p, In p enum_all ->
+  exists out s, impl_fun V_REPAIRED ENUM_FUEL p 0 0 wrapper j_init = Some (out, s) /\
+    forall id, (id < j_next s)%nat -> pend id (j_trace s) = Some [].
+Proof.
+  intros p H. exact (prog_ok_all_run V_REPAIRED ENUM_FUEL p (proj1 (forallb_forall (prog_ok_f V_REPAIRED ENUM_FUEL) enum_all) enum_all_ok p H)).
 Qed.
 
-(* a function with defers called from a deferred call while the goroutine is exiting must return
-   normally (a first version of the repair, which re-threw whenever the exit flag was set, aborted it)
-     go func(){ defer func(){ h(); println(5) }(); runtime.Goexit() }();  func h(){ defer println(3) } *)
-Definition wit_goexit_fixed : program :=
-  [[SDeferClo [SCallClo [SDeferClo [STrace 3]]; STrace 5]; SGoexit]].
-Lemma wit_goexit_fixed_runs :
-  obs (spec_run 100 wit_goexit_fixed) = Some ([ETrace 3; ETrace 5], FNormal) /\
-  obs (impl_run true 100 wit_goexit_fixed) = Some ([ETrace 3; ETrace 5], FNormal) /\
-  obs (impl_run true 100 wit_goexit) = obs (spec_run 100 wit_goexit).
+Lemma refines_full : forall p, In p enum_full ->
+  exists r, obs (spec_run ENUM_FUEL p) = Some r /\ obs (impl_run V_FULL ENUM_FUEL p) = Some r.
+Proof.
+  intros p H. exact (prog_ok_refines V_FULL ENUM_FUEL p (proj1 (forallb_forall (prog_ok_f V_FULL ENUM_FUEL) enum_full) enum_full_ok p H)).
+Qed.
+
+(* an unrecovered panic raised by a deferred call while Goexit unwinds is swallowed by the catch
+   clause of $goroutine (finding panic-during-goexit-swallowed):
+     go func(){ defer func(){ panic(2) }(); runtime.Goexit() }() *)
+Definition wit_goexit_panic : program := [[SDeferClo [SPanic (PInt 2)]; SGoexit]].
+Lemma wit_goexit_panic_runs :
+  obs (spec_run 100 wit_goexit_panic) = Some ([], FFatal (PInt 2)) /\
+  obs (impl_run V_REPAIRED 100 wit_goexit_panic) = Some ([], FNormal) /\
+  obs (impl_run V_FULL 100 wit_goexit_panic) = Some ([], FFatal (PInt 2)).
 Proof. repeat split; vm_compute; reflexivity. Qed.
 
+Lemma wit_goexit_panic_cur :
+  obs (spec_run 100 wit_goexit_panic) = Some ([], FFatal (PInt 2)) /\
+  obs (impl_run V_GOEXIT 100 wit_goexit_panic) = Some ([], FNormal).
+Proof. split; vm_compute; reflexivity. Qed.
+
+(* the historic witnesses under the repaired variants *)
+Definition wit_goexit_fixed : program :=
+  [[SDeferClo [SCallClo [SDeferClo [STrace 3]]; STrace 5]; SGoexit]].
+Lemma witnesses_repaired :
+  obs (impl_run V_GOEXIT 100 wit_goexit) = obs (spec_run 100 wit_goexit) /\
+  obs (impl_run V_GOEXIT 100 wit_goexit_fixed) = obs (spec_run 100 wit_goexit_fixed) /\
+  obs (impl_run V_REPAIRED 100 wit_replaced) = obs (spec_run 100 wit_replaced) /\
+  obs (impl_run V_REPAIRED 100 wit_skipped) = obs (spec_run 100 wit_skipped) /\
+  obs (spec_run 100 wit_skipped) = Some ([ERec (Some (PInt 2)); ERec None; ETrace 0; ETraceX 0 0], FNormal).
+Proof. repeat split; vm_compute; reflexivity. Qed.
+(* the tree with the Goexit repair only still has the replaced-panic defect *)
+Lemma wit_replaced_goexit_variant :
+  obs (impl_run V_GOEXIT 100 wit_replaced) = Some ([ERec (Some (PInt 2))], FFatal (PInt 1)).
+Proof. vm_compute; reflexivity. Qed.
+
 Lemma enum_sizes :
-  N.of_nat (length enum1) = 6321%N /\ N.of_nat (length enum2) = 177156%N /\
-  N.of_nat (length enum3) = 11137%N /\ N.of_nat (length enum4) = 6708%N /\ N.of_nat (length enum5) = 25155%N.
+  N.of_nat (length enum_calm) = 226477%N /\ N.of_nat (length enum_all) = 329727%N /\ N.of_nat (length enum_full) = 334408%N.
 Proof. vm_compute. repeat split; reflexivity. Qed.
